@@ -159,3 +159,78 @@ func ZZ_C01_get_witness() {
 	ZZ_C01_get()
 	vpAssert(false, "witness")
 }
+
+
+// C11-vis: reads through a transaction see its own writes (write buffer and
+// flushed tables of the transaction) layered over the DB state at its start;
+// everyone else sees none of them.
+func zzSpec(key byte, seq uint64, maxDepth int) (bool, byte) {
+	found, isVal, best, bval := false, false, uint64(0), byte(0)
+	for _, p := range zzAll {
+		if p.depth > maxDepth {
+			continue
+		}
+		m := vpAnd(p.e.u[0] == key, p.e.seq <= seq)
+		better := vpAnd(m, vpOr(!found, p.e.seq > best))
+		best = vpIteU64(better, p.e.seq, best)
+		isVal = vpOr(vpAnd(better, p.e.kt == keyTypeVal), vpAnd(!better, isVal))
+		bval = vpIteU8(better, p.e.v[0], bval)
+		found = vpOr(found, m)
+	}
+	return vpAnd(found, isVal), bval
+}
+
+func ZZ_C11_vis() {
+	zzFileEnts = map[*tFile][]zzEnt{}
+	zzAll = nil
+	s := &session{stor: newIStorage(storage.NewMemStorage())}
+	s.setOptions(&opt.Options{})
+	s.tops = &tOps{s: s}
+	icmp := s.icmp
+	db := &DB{s: s}
+	// the transaction's own data: depth 0 (its buffer) and 1 (a table it flushed)
+	trMem := zzMem(icmp, 0, vpChoose(zzMemEnts+1))
+	var trTables tFiles
+	if vpChoose(2) == 1 {
+		trTables = append(trTables, zzTable(icmp, 1, 60, 1))
+	}
+	nTr := len(zzAll)
+	// the DB: its write buffer is empty and no frozen buffer is pending while a
+	// transaction is open (OpenTransaction's postcondition, checked by
+	// ZZ_C11_open; other writers are locked out) — so depth 3 (level-0 file), 10 (level 1)
+	db.mem = &memDB{db: db, DB: zzMem(icmp, 2, 0), ref: 1}
+	var l0 tFiles
+	if vpChoose(2) == 1 {
+		l0 = append(l0, zzTable(icmp, 3, 20, 1))
+	}
+	l1 := zzSortedTables(icmp, 10, 30, vpChoose(2), 1)
+	v := &version{s: s, levels: []tFiles{l0, l1}, ref: 1}
+	s.stVersion = v
+	// the DB sequence when the transaction started: base entries are not newer, transaction entries are
+	dbSeq := zzSmallSeq()
+	trSeq := zzSmallSeq()
+	vpAssume(dbSeq <= trSeq)
+	for i, p := range zzAll {
+		if i < nTr {
+			vpAssume(vpAnd(p.e.seq > dbSeq, p.e.seq <= trSeq))
+		} else {
+			vpAssume(p.e.seq <= dbSeq)
+		}
+	}
+	key := []byte{vpNondetU8()}
+	vpAssume(key[0] < zzKeyDom)
+	// through the transaction
+	val, err := db.get(trMem, trTables, key, trSeq, nil)
+	want, wv := zzSpec(key[0], trSeq, 1000)
+	vpAssert((err == nil) == want, "transaction-sees-own-writes-over-base")
+	if err == nil {
+		vpAssert(len(val) == 1 && val[0] == wv, "transaction-read-value")
+	}
+	// everyone else, now and at any snapshot taken before the commit
+	val2, err2 := db.get(nil, nil, key, dbSeq, nil)
+	want2, wv2 := zzSpec(key[0], dbSeq, 1000)
+	vpAssert((err2 == nil) == want2, "others-see-base-only")
+	if err2 == nil {
+		vpAssert(len(val2) == 1 && val2[0] == wv2, "others-read-value")
+	}
+}
